@@ -676,8 +676,8 @@ def node_contexts(g: Graph) -> List[Union[Variable, None]]:
         if triple[1] != CONCEPT_ROLE and triple[2] in variables:
             eligible.append(cast(Variable, triple[2]))
 
-        if stack[-1] not in eligible:
-            break
+        if not stack or stack[-1] not in eligible:
+            break  # (surplus POPs may have emptied the stack)
         else:
             contexts[i] = stack[-1]
 
